@@ -382,7 +382,14 @@ def _child_main():
     os._exit(0)
 
   threading.Thread(target=watchdog, daemon=True).start()
-  res = run_case_inner(case)
+  try:
+    res = run_case_inner(case)
+  except KeyboardInterrupt:
+    # the Python-level handler of a SIGINT ran only after execute() had
+    # returned and the lab had moved on (no test registered: default handler,
+    # raised in harness code): the schedule was not realized, nothing to judge
+    res = {'sig': None, 'violations': [], 'evaluations': 0, 'sample': False,
+           'counters': {'sigint_handled_after_execute_returned': 1}}
   print('RESULT ' + json.dumps(res, default=repr), flush=True)
   os._exit(0)
 
@@ -435,6 +442,10 @@ def run_case_inner(case):
       return skip
     obs = abortlab.run(prog, cfg, target=target, action='abort',
                        real_sigint=True)
+    if obs['info'].get('sigint_after_execute_returned'):
+      # the signal was handled only after execute() had returned (CPython ran
+      # the handler late): not an abort of a running test, nothing to judge
+      return dict(skip, counters={'sigint_handled_after_execute_returned': 1})
   elif mode == 'inline':
     target = pick_point(case, by_role['main'], 'inline')
     if target is None:
